@@ -1,5 +1,6 @@
 import MxModel.Proofs.EditMachineRename
 import MxModel.Proofs.EditMachineExamples
+import MxModel.Proofs.EditMachineGlobalsExamples
 /-!
 # Histories with renames: admissibility from sources, the examples
 
@@ -57,17 +58,45 @@ theorem admissibleR_of_sources (P : Params) (lt : Node → Node → Prop) (ho : 
   | nil => intro w _ _ _; trivial
   | cons op rest ih =>
     intro w h hw hs
-    have hso : SlotsOK w op := by
-      cases op with
-      | g o => trivial
-      | renameSpace p new => show slotsFixed w.tabs p new = true; simp [slotsFixed, hs]
-    have c' := stepR_cig ho w op hw h hso
+    have c' := stepR_cig ho w op hw h
     have hs' := slots_stepR P w op hs
     have hw' : WF ((stepR P w op).env P) lt :=
       wf_envOf P _ _ lt c'.alloc hs' hnc hsc (ranked_envOf_noCalls P _ _ lt hcalls)
-    exact ⟨hso, hw', ih _ c' hw' hs'⟩
+    exact ⟨hw', ih _ c' hw' hs'⟩
+
+/-- **every history with renames is admissible** for sources that read references through attribute paths only
+(declared slots, whatever spaces they lie in), call nothing and catch nothing -/
+theorem admissibleR_of_attr_sources (P : Params) (lt : Node → Node → Prop)
+    (hnc : ∀ v key, NsNoCatch (P.srcOf v key)) (hao : ∀ v key, NsAttrOnly (P.srcOf v key))
+    (hcalls : ∀ v key, NsNoCalls (P.srcOf v key)) :
+    ∀ (ops : List OpR) (w : W), AdmissibleR P lt w ops := by
+  intro ops
+  induction ops with
+  | nil => intro w; trivial
+  | cons op rest ih =>
+    intro w
+    exact ⟨wf_envOf_attrOnly P _ _ lt hnc hao hcalls, ih _⟩
 
 /-! ## the examples -/
+
+/-- a slot in a renamed space (`gP`: every cells is `lambda: S.x`, slot `(S, x)` declared): `m.x = 1`; `T.c()` is 1;
+`S.rename("Z")` keeps it (the formula reaches the space through a reference to the OBJECT; the slot is still
+spelled `S.x`); `Z.x = 5` (an own reference of the renamed space) clears the reader through the SAME slot
+identity; `T.c()` is 5 -/
+def sOps : List OpR := [
+  .g (.setGlobal "x" 1),
+  .g (.op (.struct (.newSpace [] "S" [] []))),
+  .g (.op (.struct (.newSpace [] "T" [] []))),
+  .g (.op (.struct (.newCells ["T"] "c" "c" 0))),
+  .g (.op (.eval ["T"] "c" [])),
+  .renameSpace ["S"] "Z",
+  .g (.op (.eval ["T"] "c" [])),
+  .g (.op (.struct (.setRef ["Z"] "x" 5))),
+  .g (.op (.eval ["T"] "c" []))]
+
+theorem sOps_admissible : AdmissibleR gP idLt (W.init gSlots) sOps :=
+  admissibleR_of_attr_sources gP idLt (fun _ _ => (readAttr_ok _).1) (fun _ _ => (readAttr_ok _).2.1)
+    (fun _ _ => (readAttr_ok _).2.2) sOps _
 
 def rOps : List OpR := [
   .g (.op (.struct (.newSpace [] "A" [] []))),
